@@ -575,8 +575,8 @@ class GroupValueWrite(APCI):
         if isinstance(self.value, DPTBinary):
             return encode_cmd_and_payload(self.CODE, encoded_payload=self.value.value)
 
-        if not self.value.value:
-            raise ConversionError("DPTArray payload must not be empty.")
+        # the value may have been replaced after __post_init__ checked it
+        validate_group_value(self.value)
         return encode_cmd_and_payload(
             self.CODE, appended_payload=bytes(self.value.value)
         )
@@ -619,8 +619,8 @@ class GroupValueResponse(APCI):
         """Serialize to KNX/IP raw data."""
         if isinstance(self.value, DPTBinary):
             return encode_cmd_and_payload(self.CODE, encoded_payload=self.value.value)
-        if not self.value.value:
-            raise ConversionError("DPTArray payload must not be empty.")
+        # the value may have been replaced after __post_init__ checked it
+        validate_group_value(self.value)
         return encode_cmd_and_payload(
             self.CODE, appended_payload=bytes(self.value.value)
         )
